@@ -16,6 +16,8 @@ DRV = os.path.join(VERIF, "coq", "build", "drv")   # set by checklib to build/<p
 REPO = os.environ.get("VERIF_REPO", "/repo")
 PY = "/venv/bin/python"
 NPROC = 16
+MODEL_TIMEOUT = 900   # seconds per driver process
+IMPL_TIMEOUT = 900
 
 DOC_ERRORS = {
     "ColorParseError": 1, "StyleSyntaxError": 2, "MarkupError": 3, "MissingStyle": 4,
@@ -81,7 +83,11 @@ def run_model(cases, nproc=NPROC):
 
     def work(i):
         p, data, n = procs[i]
-        out, _ = p.communicate(data)
+        try:
+            out, _ = p.communicate(data, timeout=MODEL_TIMEOUT)
+        except subprocess.TimeoutExpired:
+            p.kill()
+            out, _ = p.communicate()
         outs[i] = out.decode().split("\n")
     ths = [threading.Thread(target=work, args=(i,)) for i in range(len(procs))]
     for t in ths:
@@ -131,9 +137,14 @@ def run_impl(layer, cases, nproc=NPROC, repo=None):
 
     def work(i):
         p, data, n = procs[i]
-        out, err = p.communicate(data)
+        try:
+            out, err = p.communicate(data, timeout=IMPL_TIMEOUT)
+        except subprocess.TimeoutExpired:
+            p.kill()
+            out, err = p.communicate()
+            err += b"\nTIMEOUT"
         outs[i] = out.decode().split("\n")
-        errs[i] = err.decode()
+        errs[i] = err.decode(errors="replace")
     ths = [threading.Thread(target=work, args=(i,)) for i in range(len(procs))]
     for t in ths:
         t.start()
